@@ -253,13 +253,23 @@ class C20(Prop):
                 if fam in ('all', 'pol+polprob') and len(c['ipp']) != 1:
                     c['ipp'] = c['ipp'][:1]         # the combined polarity kernels index one mispick array by both station counters
                 yield c
+        yield {'kind': 'glue'}
         yield {'kind': 'inventory'}
+
+    # what the Python acceptance path reads: the current state's parameters, the widths of the same name, the balancing widths for the balancing
+    # variables (gamma_dc for gamma, delta_dc for delta; jump_params / transition_pdf in markov_chain_monte_carlo.py), the stored g0 / d0 of a jump
+    GLUE = {'gamma': ['x.gamma'], 'delta': ['x.delta'], 'h': ['x.h'], 'sigma': ['x.sigma'], 'kappa': ['x.kappa'], 'g0': ['x0.gamma'], 'g_s': ['alpha.gamma'],
+            'd0': ['x0.delta'], 'd_s': ['alpha.delta'], 'h0': ['x0.h'], 'h_s': ['alpha.h'], 's0': ['x0.sigma'], 's_s': ['alpha.sigma'], 'k0': ['x0.kappa'],
+            'qg': ['x.g0', 'x.gamma'], 'qd': ['x.d0', 'x.delta'], 'sg': ['alpha.gamma_dc'], 'sd': ['alpha.delta_dc'],
+            'proposal_normalisation': ['alpha.proposal_normalisation']}
 
     # ------------------------------------------------------------------ the Python paths
     def impl(self, case):
         np, pr, conv, alg = self.np, self.pr, self.conv, self.alg
         if case['kind'] == 'inventory':
             return {'translated': sorted(self.translated), 'skipped': self.report['skipped']}
+        if case['kind'] == 'glue':
+            return {'glue': self.report.get('glue')}
         if case['kind'] == 'array':
             return self.impl_array(case)
         k, a = case['kernel'], case['args']
@@ -479,7 +489,7 @@ class C20(Prop):
 
     # ------------------------------------------------------------------ the translated kernels
     def requests(self, case, impl):
-        if case['kind'] == 'inventory':
+        if case['kind'] in ('inventory', 'glue'):
             return []
         if case['kind'] == 'array':
             return self.array_requests(case, impl) if isinstance(impl, dict) and 'exc' not in impl else []
@@ -521,12 +531,26 @@ class C20(Prop):
         return ['pyx %s %s' % (k, b(a))]
 
     def compare(self, case, impl, replies):
+        if case['kind'] == 'glue':
+            return []
         if case['kind'] != 'inventory':
             impl['replies'] = list(replies)
             return []
         return self._compare(case, impl, replies)
 
     def oracle(self, case, impl):
+        if case['kind'] == 'glue':
+            out = []
+            for fn in ('acceptance_check', 'me_acceptance_check'):
+                g = (impl.get('glue') or {}).get(fn)
+                if g is None:
+                    out.append(('glue', 'the dictionary unpacking of %s in the .pyx could not be read any more (data flow table unavailable)' % fn, None))
+                    continue
+                for par, want in self.GLUE.items():
+                    if g.get(par) != want:
+                        out.append(('glue', '%s hands the compiled acceptance kernel parameter %s from %r; the Python path reads %r for it' % (fn, par, g.get(par), want), None))
+                        break
+            return out
         if case['kind'] == 'inventory' or not isinstance(impl, dict):
             return []
         out = []
@@ -675,12 +699,14 @@ class C20(Prop):
         return []
 
     def nontrivial(self, case, impl):
+        if case['kind'] == 'glue':
+            return True
         if case['kind'] == 'array':
             return True
         return case['kind'] == 'kernel' and all(v != 0 for v in case['args'])
 
     def branch(self, case, impl):
-        return case.get('kernel', 'inventory')
+        return case.get('kernel', case['kind'])
 
 
 if __name__ == '__main__':
